@@ -16,6 +16,10 @@ from typing import Dict, List, Optional, Tuple
 from .srcmodel import AnalysisError, FuncInfo, Model, norm, walk_no_nested
 
 UNK = ("unknown",)
+BUILTIN_METHOD_NAMES = {"append", "extend", "insert", "pop", "remove", "clear", "copy", "get", "items", "keys", "values", "update", "setdefault", "add", "discard",
+                        "join", "split", "strip", "lstrip", "rstrip", "encode", "decode", "format", "startswith", "endswith", "replace", "find", "index", "count",
+                        "lower", "upper", "match", "search", "fullmatch", "sub", "group", "groups", "tobytes", "hex", "to_bytes", "from_bytes", "release", "sort",
+                        "reverse", "partition", "rpartition", "read", "write", "close", "send", "throw", "__init__"}
 PRIMS = {"bytes", "str", "int", "bool", "bytearray", "memoryview", "float", "object"}
 
 
@@ -731,6 +735,22 @@ class Resolver:
                 return ("builtin", txt, None)
             if head in self.m.modules[fi.module].imports and self.m.modules[fi.module].imports[head] == head or head in ("re", "struct", "base64", "dataclasses", "enum", "int", "object", "t", "typing"):
                 return ("builtin", txt, None)
+            if bt == UNK and isinstance(f.value, ast.Name) and f.attr not in BUILTIN_METHOD_NAMES:
+                # a receiver of unknown type (a value picked by a generic helper): every package class that defines a method of
+                # that name and can take this many arguments may be the target (name-based class-hierarchy analysis)
+                nargs = len(e.args) + len(e.keywords)
+                cands = []
+                for cq, c in self.m.classes.items():
+                    mt = c.methods.get(f.attr)
+                    if mt is None or isinstance(mt.node, ast.Lambda):
+                        continue
+                    a_ = mt.node.args
+                    total = len(a_.posonlyargs) + len(a_.args) + len(a_.kwonlyargs) - (0 if mt.is_staticmethod else 1)
+                    required = total - len(a_.defaults) - sum(1 for d in a_.kw_defaults if d is not None)
+                    if required <= nargs <= total or a_.vararg or a_.kwarg:
+                        cands.append(mt)
+                if cands:
+                    return ("funcs", cands, f.value)
             return ("unknown", norm(e))
         return ("unknown", norm(e))
 
